@@ -109,7 +109,11 @@ def twin_check(world, lens, ctx):
 
 
 def run(ch, ctx):
-    cfg = gen_config(ch, BIAS)
+    bias = dict(BIAS)
+    if ch.chance('c09.uniform_autos', 1, 2):
+        bias['autos_mask'] = 1 + ch.pick('c09.autos_mask', (1 << 11) - 1)      # every non-empty subset equally likely
+    cfg = gen_config(ch, bias)
+    ctx.tag('automation_subset', cfg['autos'])
     lens = Lengths()
     world = None
     run_key = run_key_of(ch)
